@@ -58,11 +58,12 @@ def build_harness(run, race=False):
     verif tag. A compile error inside /repo is an observation of a broken tree,
     but not of a property: exit 2 with the compiler output."""
     os.makedirs(os.path.join(OUT, "bin"), exist_ok=True)
-    exe = os.path.join(OUT, "bin", "vh-race" if race else "vh")
+    # the binary lives in this run's own directory: checks may run side by side, and none may execute a file that
+    # another one is linking at that moment (bin/setup builds out/bin/vh only to warm the Go build cache)
+    exe = run.path("vh-race" if race else "vh")
     modflag = []
     if os.path.realpath(REPO) != "/repo":
         # development only (bin/mutcheck): build against a scratch copy of the repository
-        exe += "." + hashlib.md5(REPO.encode()).hexdigest()[:8]
         mf = os.path.join(OUT, "bin", "go.%s.mod" % hashlib.md5(REPO.encode()).hexdigest()[:8])
         with open(mf, "w") as f:
             f.write(open(os.path.join(VERIF, "harness", "go.mod")).read().replace("=> /repo", "=> " + REPO))
@@ -75,7 +76,7 @@ def build_harness(run, race=False):
     return exe
 
 def build_cli(run):
-    exe = os.path.join(OUT, "bin", "univers" + ("" if os.path.realpath(REPO) == "/repo" else "." + hashlib.md5(REPO.encode()).hexdigest()[:8]))
+    exe = run.path("univers")
     p = subprocess.run(["go", "build", "-tags", "verif", "-o", exe, "./cmd"], cwd=REPO, env=GOENV,
                        stdout=subprocess.PIPE, stderr=subprocess.STDOUT, text=True)
     if p.returncode != 0:
